@@ -29,6 +29,39 @@ __wrap_coap_ticks(coap_tick_t *t) {
   *t = (coap_tick_t)(vf_now_ms * COAP_TICKS_PER_SECOND / 1000);
 }
 
+/* GnuTLS keeps its own DTLS retransmission timers; point them at the same clock so
+ * that handshakes run in virtual time too */
+#include <gnutls/gnutls.h>
+#include <time.h>
+extern void _gnutls_global_set_gettime_function(void (*)(struct timespec *));
+
+static time_t
+vf_tls_time(time_t *t) {
+  time_t v;
+  if (vf_real_clock)
+    return time(t);
+  v = (time_t)(1700000000 + vf_now_ms / 1000);
+  if (t)
+    *t = v;
+  return v;
+}
+
+static void
+vf_tls_gettime(struct timespec *ts) {
+  if (vf_real_clock) {
+    clock_gettime(CLOCK_REALTIME, ts);
+    return;
+  }
+  ts->tv_sec = (time_t)(1700000000 + vf_now_ms / 1000);
+  ts->tv_nsec = (long)(vf_now_ms % 1000) * 1000000L;
+}
+
+void
+vf_tls_virtual_clock(void) {
+  gnutls_global_set_time_function(vf_tls_time);
+  _gnutls_global_set_gettime_function(vf_tls_gettime);
+}
+
 /* ------------------------------------------------------------ sockets -- */
 vsock_t vsocks[VF_MAX_SOCKS];
 int vf_cur_node = -1;
@@ -160,6 +193,7 @@ __wrap_coap_socket_close(coap_socket_t *sock) {
     ev_int("vs", vs->id);
     ev_int("kind", vs->kind);
     ev_int("conn", vs->conn);
+    ev_int("init", vs->initiator);
     ev_end();
     vs_drop_queue(vs);
     close(vs->fd);
